@@ -23,24 +23,24 @@ import (
 
 // OriginEntry is one line of the origin log (ground truth of what reached the wire).
 type OriginEntry struct {
-	Seq      int    `json:"seq"`
-	Step     int    `json:"step"`
-	T        int64  `json:"t"`
-	Host     string `json:"host"`
-	Method   string `json:"method"`
-	URI      string `json:"uri"`
-	Key      string `json:"key"`
-	Attempt  int    `json:"attempt"`
-	UA       string `json:"ua,omitempty"`
-	Known    bool   `json:"known"`
-	Status   int    `json:"status"`
-	Fault    string `json:"fault,omitempty"`
-	BodySHA1 string `json:"body_sha1,omitempty"` // entity body as sent (content-encoded, before chunking)
-	BodyLen  int    `json:"body_len"`
-	CT       string `json:"ct,omitempty"`
-	Started  bool   `json:"started"`  // response bytes started flowing
-	Complete bool   `json:"complete"` // whole response written and accepted by the client
-	DoneStep int    `json:"done_step,omitempty"`
+	Seq      int               `json:"seq"`
+	Step     int               `json:"step"`
+	T        int64             `json:"t"`
+	Host     string            `json:"host"`
+	Method   string            `json:"method"`
+	URI      string            `json:"uri"`
+	Key      string            `json:"key"`
+	Attempt  int               `json:"attempt"`
+	UA       string            `json:"ua,omitempty"`
+	Known    bool              `json:"known"`
+	Status   int               `json:"status"`
+	Fault    string            `json:"fault,omitempty"`
+	BodySHA1 string            `json:"body_sha1,omitempty"` // entity body as sent (content-encoded, before chunking)
+	BodyLen  int               `json:"body_len"`
+	CT       string            `json:"ct,omitempty"`
+	Started  bool              `json:"started"`  // response bytes started flowing
+	Complete bool              `json:"complete"` // whole response written and accepted by the client
+	DoneStep int               `json:"done_step,omitempty"`
 	Headers  map[string]string `json:"-"`
 }
 
